@@ -609,8 +609,8 @@ def coq_term(cfg, obs):
         for evs in gens[1:]:
             st = [e for e in evs if e[0] == "stats"][0]
             gl.append(harm_events(evs, set(u for (u, g, f) in st[1])))
-        return "CHarm %s %s %s %s %s %s %s %s %s %s %s %s %s" % (
-            cevp(cfg["evp"]), czl(cfg["weights"]), cq(Fraction(cfg["cxpb"])), cq(Fraction(cfg["mutpb"])), cz(cfg["nbr"]),
+        return "CHarm %s %s %s %s %s %s %s %s %s %s %s %s %s %s" % (
+            cnat(cfg["ngen"]), cevp(cfg["evp"]), czl(cfg["weights"]), cq(Fraction(cfg["cxpb"])), cq(Fraction(cfg["mutpb"])), cz(cfg["nbr"]),
             objs, cnatl(obs["pop0"]), clist(gl), calls, recs, shown, final, cbool(obs["ret_is_caller"]))
     ogs = []
     for evs in (gens if kind == "gu" else gens[1:]):
@@ -625,8 +625,8 @@ def coq_term(cfg, obs):
                                                      cnatl(var[1]), clist([cobj(o) for o in var[2]])))
     k = {"simple": "KSimple", "plus": "KPlus", "comma": "KComma", "gu": "KGU"}[kind]
     inplace = obs["gu_ret_is_last"] if kind == "gu" else obs["ret_is_caller"]
-    return "CLoop %s %s %s %s %s %s %s %s %s %s %s %s %s" % (
-        k, cevp(cfg["evp"]), czl(cfg["weights"]), cnat(cfg.get("mu", 0)), cnat(cfg.get("lam", 0)),
+    return "CLoop %s %s %s %s %s %s %s %s %s %s %s %s %s %s" % (
+        k, cnat(cfg["ngen"]), cevp(cfg["evp"]), czl(cfg["weights"]), cnat(cfg.get("mu", 0)), cnat(cfg.get("lam", 0)),
         objs, cnatl(obs["pop0"]), clist(ogs), calls, recs, shown, final, cbool(inplace))
 
 
